@@ -276,18 +276,47 @@ def gen_nexus(rng, size, with_chars=None, like=None):
             if rng.random() < 0.3:
                 rng.shuffle(toks)
             translate = dict(zip(idx, toks))
-            text += "  " + maybe_comments(rng, cfg["p_comment"] * 0.5) + kw(rng, "translate") + "\n"
-            text += ",\n".join("    %s %s" % (translate[j], render_label(rng, pool[j], False)) for j in idx)
-            text += "\n  ;\n" if rng.random() < 0.9 else ";\n"
-        for i in range(ntrees):
+            # the table may come in several TRANSLATE statements, the later ones possibly after a TREE statement
+            # (the block's symbol mapper is reused: each statement adds to the tokens already known)
+            stages = [idx]
+            if len(idx) >= 2 and rng.random() < 0.45:
+                cut = rng.randint(1, len(idx) - 1)
+                stages = [idx[:cut], idx[cut:]]
+                if len(stages[1]) >= 2 and rng.random() < 0.3:
+                    c2 = rng.randint(1, len(stages[1]) - 1)
+                    stages = [stages[0], stages[1][:c2], stages[1][c2:]]
+
+            def translate_stmt(part):
+                t = "  " + maybe_comments(rng, cfg["p_comment"] * 0.5) + kw(rng, "translate") + "\n"
+                t += ",\n".join("    %s %s" % (translate[j], render_label(rng, pool[j], False)) for j in part)
+                t += "\n  ;\n" if rng.random() < 0.9 else ";\n"
+                return t
+            text += translate_stmt(stages[0])
+            defined = set(stages[0])
+            # where the later statements go: before tree number `at` (0 = directly after the first statement)
+            pending = [(rng.randint(0, ntrees), part) for part in stages[1:]]
+            pending.sort(key=lambda p: p[0])
+        if translate is None:
+            pending, defined = [], set()
+        for i in range(ntrees + 1):
+            while pending and pending[0][0] <= i:
+                part = pending.pop(0)[1]
+                text += translate_stmt(part)
+                if i == 0:
+                    defined |= set(part)
+                # else: the block loop (reader and yielder alike) re-reads a token after a run of TREE statements, so the
+                # statement keyword directly behind a TREE statement is swallowed and this TRANSLATE defines nothing:
+                # its tokens are never used below; every route must still agree on the document
+            if i == ntrees:
+                break
             taxa = pick_taxa(rng, list(range(len(pool))), 6 if size == "small" else 10)
             refs = []
             for j in taxa:
-                if translate is not None and j in translate and rng.random() < 0.8:
+                if translate is not None and j in defined and rng.random() < 0.8:
                     refs.append(translate[j])
                 elif have_taxa and translate is None and rng.random() < 0.15:
                     refs.append(str(j + 1))
-                elif translate is not None and (not have_taxa) and j not in translate:
+                elif translate is not None and (not have_taxa) and j not in defined:
                     # a label never mentioned in TRANSLATE of a file without TAXA block: fine, it becomes a new taxon
                     refs.append(render_label(rng, pool[j], have_taxa))
                 elif translate is not None and not have_taxa:
@@ -311,6 +340,30 @@ def gen_nexus(rng, size, with_chars=None, like=None):
     if rng.random() < 0.15:
         text = text.rstrip("\n")
     return {"schema": "nexus", "text": text, "opts": opts, "info": info}
+
+
+def damage(rng, doc):
+    """a damaged variant of a document: every route must still agree (all refuse it, or all read the same trees)"""
+    text = doc["text"]
+    kind = rng.choice(["truncate", "truncate", "dup-leaf", "no-equals", "unbalanced", "drop-semicolon", "empty", "bad-length"])
+    if kind == "truncate" and len(text) > 2:
+        text = text[:rng.randint(1, len(text) - 1)]
+    elif kind == "dup-leaf":
+        text = text.replace(",", ",a,a,", 1)
+    elif kind == "no-equals":
+        text = text.replace("=", " ", 1)
+    elif kind == "unbalanced":
+        i = text.find("(")
+        text = text[:i] + "(" + text[i:] if i >= 0 else text + "("
+    elif kind == "drop-semicolon":
+        i = text.rfind(";")
+        text = text[:i] + text[i + 1:] if i >= 0 else text
+    elif kind == "bad-length":
+        i = text.find(":")
+        text = text[:i + 1] + "x" + text[i + 1:] if i >= 0 else text + ":"
+    else:
+        text = rng.choice(["", " ", "\n", "[only a comment]", "[c]\n"])
+    return {"schema": doc["schema"], "text": text, "opts": doc["opts"], "info": dict(doc.get("info") or {}, damaged=kind)}
 
 
 def gen_doc(rng, size="small"):
@@ -348,7 +401,7 @@ def small_scope_docs():
             text = "".join(stmts[s] + seps[p] for s, p in combo)
             for opts in ({}, {"store_tree_weights": True, "rooting": "default-rooted"}):
                 yield {"schema": "newick", "text": text, "opts": opts}
-    nstmts = ["(a,b)", "[&R] ((a:1,b:2)x:1,c)", "[&U] [&W 1/2] (1,(2,3):0.5)[post]"]
+    nstmts = ["({1},{2})", "[&R] (({1}:1,{2}:2)x:1,{3})", "[&U] [&W 1/2] ({1},({2},{3}):0.5)[post]"]
     for taxa in (False, True):
         for translate in (False, True):
             for layout in ([0], [1], [2], [0, 1], [1, 1], [1, 2], [2, 1], [2, 0, 1], [2, 2]):
@@ -362,14 +415,12 @@ def small_scope_docs():
                             for nb, nt in enumerate(layout):
                                 text += "BEGIN TREES;\n"
                                 if translate:
-                                    text += " TRANSLATE 1 c, 2 b, 3 a;\n"
+                                    text += " TRANSLATE 1 c, 2 b;\n TRANSLATE 3 a;\n" if nb else " TRANSLATE 1 c, 2 b, 3 a;\n"
                                 if pre_comment:
                                     text += " [block comment]\n"
                                 for i in range(nt):
-                                    s = nstmts[(pick + ti) % 3]
-                                    if not taxa and not translate:
-                                        s = s.replace("1", "a").replace("2", "b").replace("3", "c").replace("a/b", "1/2").replace("b:a", "b:1").replace("a:a", "a:1").replace(":0.5", ":0.5")
-                                        s = nstmts[(pick + ti) % 2] if "W" in s else s
+                                    names = ("1", "2", "3") if (taxa or translate) and (pick + ti) % 2 == 0 else ("a", "b", "c")
+                                    s = nstmts[(pick + ti) % 3].replace("{1}", names[0]).replace("{2}", names[1]).replace("{3}", names[2])
                                     text += " %sTREE t%d = %s;\n" % ("[pre] " if pre_comment and i else "", ti, s)
                                     ti += 1
                                 text += "END;\n"
